@@ -79,6 +79,7 @@ struct Enumerator {
                         if (seq[k] == A_AEC_NEW || aec_keys == 0) aec_keys++;
                         a.ip_address = std::string(4, (char)aec_keys);
                         a.ae_type = CDNS::AddressEventTypeValues::tcp_reset;
+                        a.ae_count = recno;   // (ignored on input: every call counts one event)
                         bool applies = M.add_aec(a, nullptr);
                         ret = ex.buffer_aec(a);
                         wrote = applies ? M.maybe_flush() : false;
